@@ -171,8 +171,11 @@ def c05(tr, firmware):
 
 
 def params_text(cmd):
-    parts = cmd.strip().split(None, 1)
-    return parts[1].strip() if len(parts) > 1 else ""
+    """Parameter words of a command, normalised (independent reader; 'G10S1' and 'G10 S1' are the same)."""
+    rd = gread.read(cmd)
+    if rd is None:
+        return cmd
+    return " ".join("%s%s" % (l, "" if v is None else repr(v)) for l, v in rd.words)
 
 
 # ----------------------------------------------------------------------------------- classes
